@@ -112,6 +112,11 @@ impl<TR: ToTokens> FnDelegationCodegen<'_, TR> {
         let opt_self_comma = match (deps, entrait_sig.sig.inputs.first(), &self.impl_indirection) {
             (generics::FnDeps::NoDeps { .. }, _, _) | (_, None, _) => None,
             (_, _, ImplIndirection::Static { .. } | ImplIndirection::Dynamic { .. }) => None,
+            // `self` resolves hygienically: it has to carry the span of the receiver it refers to
+            (_, Some(syn::FnArg::Receiver(receiver)), _) => Some(SelfArgComma(
+                &self.impl_indirection,
+                receiver.self_token.span,
+            )),
             (_, Some(_), _) => Some(SelfArgComma(&self.impl_indirection, span)),
         };
 
